@@ -60,6 +60,7 @@ DEFAULT_KNOBS = dict(
     p_assign_style=0.3,
     p_multi_group_name=0.0,
     p_attach_style=0.0,
+    p_awaitable=0.0,
 )
 
 
@@ -505,6 +506,12 @@ def gen_scenario(rnd, k, profile="generic"):
         ensure_machine_param(prog, c)
     set_async(rnd, prog, mode, must_async=senders)
     is_async = any(m.get("async") for m in prog["cbs"].values())
+    if is_async and k["p_awaitable"] > 0:
+        for c in sorted(prog["cbs"]):
+            m = prog["cbs"][c]
+            if not m.get("async") and m["group"] not in ("cond", "unless") and not m.get("style") \
+                    and rnd.random() < k["p_awaitable"]:
+                m["awaitable"] = True
     ops = gen_ops(rnd, prog, k)
     if is_async:
         ops[0]["rtc"] = True
